@@ -224,6 +224,11 @@ def run(index, rep, tier):
         rep.floor("R18.7", "numeric names in the simulators", 30, numeric_truthiness_rule(index, rep, "R18.7", SIM_MODULES[:3], exempt={
             "dendropy.model.coalescent.discrete_time_to_coalescence:pop_size": "documented: a population size of 0 or None both mean 'time in population units'"}))
 
+    # ---- R18.8 required labels resolve to their own taxa
+    with rep.section("R18.8"):
+        rep.rule("R18.8", "the simulators obtain tip taxa through require_taxon on the supplied namespace: label lookup folds consistently and follows relabelling (C10 R10.9), and the accession index that orders gene sets is unique per member (C10 R10.2, R10.3)")
+        rep.floor("R18.8", "borrowed obligations", 8, borrow(index, rep, "C10", {"R10.9", "R10.2", "R10.3"}, "R18.8"))
+
 
 def _distinct_labels_rule(index, rep):
     """R18.3: `require_taxon(label=L)` returns an *existing* taxon when the label is taken, so a
